@@ -42,6 +42,12 @@ class Segment(object):
         return f"{self.l1}-{self.l2}"
 
     @property
+    def labels(self):
+        """The labels as a tuple. In contrast with the string in :attr:`label`, this identifies the
+        node or edge also when labels contain a dash or when integers and strings are mixed."""
+        return self.l1, self.l2
+
+    @property
     def rlabel(self):
         if self.l2 is None:
             return self.l1
